@@ -1,9 +1,37 @@
-"""C09 is assembled from the lifecycle parts of several engines (DESIGN 6.6)."""
-from engines import writer
+"""C09 is assembled from the lifecycle parts of several engines (DESIGN 6.6): Writer (Writer.tla), group Reader and
+ConsumerGroup (Group.tla + GroupMon.tla), non-group Reader (FetchMon.tla), Transport round trips (added with engine E5)."""
+from engines import writer, group, reader
 
 PROPS = {"C09": "model_checking"}
 
 
 def run(ctx):
-    cov = writer.run(ctx)
+    import os
+    keep = ["writer.go", "group.go", "reader.go", "conn.go"]
+    if os.path.exists(os.path.join(os.path.dirname(__file__), "transport.py")):
+        keep.append("transport.go")
+    ctx.vh_keep = keep
+    cov = writer.run(ctx)                       # Writer.Close / use after close / cancellation (C09w_*)
+    parts = {"writer": {k: cov.get(k) for k in ("states", "transitions", "traces_validated_against_impl", "scripts_generated")}}
+    g = group.run_part(ctx, "C09")             # Reader.Close / ConsumerGroup.Close: leave, quiet afterwards, connections closed
+    parts["group"] = {k: g.get(k) for k in ("traces_validated_against_impl", "scenarios", "trace_events", "invariants")}
+    cov["traces_validated_against_impl"] = (cov.get("traces_validated_against_impl") or 0) + (g.get("traces_validated_against_impl") or 0)
+    # non-group Reader.Close under the watchdog
+    scripts = reader.gen_scripts(ctx.seed, 30 if ctx.tier == "quick" else 300)
+    traces = reader.run_scripts(ctx, scripts, "c09")
+    n = reader.monitor(ctx, scripts, traces, ["C09r_CloseReturns"])
+    parts["reader"] = {"traces_monitored": n, "invariants": ["C09r_CloseReturns"]}
+    cov["traces_validated_against_impl"] += n
+    try:
+        from engines import transport
+        t = transport.run_part(ctx, "C09")
+        parts["transport"] = {k: t.get(k) for k in t if k != "samples"}
+        cov["traces_validated_against_impl"] += t.get("traces_validated_against_impl") or 0
+    except ImportError:
+        parts["transport"] = "engine not built yet"
+    except Exception as e:
+        if "not built yet" not in str(e):
+            raise
+        parts["transport"] = str(e)
+    cov["parts"] = parts
     return cov
